@@ -62,6 +62,18 @@ def run(ctx):
                 gate = True
     ctx.ob("G2.LIMIT-GATES-CAS", "allocate", gate, "the CAS is dominated by the comparison with total_limit()" if gate else
            "no comparison with total_limit() dominates the reservation", a.loc())
+    # G2b: a lock-free retry must re-evaluate the limit (the comparison and its loads sit inside the CAS retry loop);
+    # under a mutex held across the region a hoisted check is equivalent.
+    in_loop = True
+    for c in ca:
+        lp = [(h, body) for h, body in a.loops() if c.bb in body]
+        if not lp:
+            continue
+        h, body = min(lp, key=lambda x: len(x[1]))
+        in_loop = in_loop and all(x.bb in body for x in multi) and bool(multi)
+    ctx.ob("G2b.RECHECK-ON-RETRY", "allocate", ok and (in_loop or bool(locks)) or (not ok and in_loop), "limit re-evaluated on every retry (or the region is serialised)" if (in_loop or (ok and locks)) else
+           "the limit check is evaluated once before the compare-exchange retry loop: a retry after a concurrent allocation reserves "
+           "without re-checking and total usage exceeds the limit", a.loc())
     # G3
     for f in (a, r):
         cs = cas(f)
